@@ -4,7 +4,7 @@ sys.path.insert(0, os.path.dirname(os.path.dirname(os.path.abspath(__file__))))
 import ast
 import z3
 from pyvc import xreal as xr
-from pyvc.numexec import Unsupported
+from pyvc.numexec import Unsupported, ANALYSIS
 from pyvc.numrun import exec_method, merged_return
 from pyvc.solve import Obl, static, undecided
 from pyvc.runner import main
@@ -65,7 +65,7 @@ def build(run):
             run.add(Obl(f"{fq}/ensures.fixes_0_1", ax.axioms(), z3.And(xr.same(y0, xr.const(e0)), xr.same(y1, xr.const(e1))), fn=fq, meta=rp("fixes", [])))
             mono = xr.ge(y, y2) if cls == "Not" else xr.le(y, y2)
             run.add(Obl(f"{fq}/ensures.monotone", pre2 + [xr.le(x, x2)] + ax.axioms(), mono, fn=fq, meta=rp("monotone", ["x", "x2"])))
-        except Unsupported as ex_:
+        except ANALYSIS as ex_:
             run.add(undecided(f"{fq}/subset", f"outside the verified subset: {ex_}", fn=fq,
                               meta={"replay": {"module": "contracts.hedges", "func": "replay", "kwargs": {"clause": "all", "hedge": cls}, "vars": {}}}))
     # relations between hedges, over the code's own symbolic results; inner results are used through `ensures.range`
@@ -86,7 +86,7 @@ def build(run):
             ax = xr.Ax(); A = xr.SymAlg(ax)
             nx = xr.finite_part(code["Not"](ax, x))
             run.add(Obl("hedge/law.not_involution", pre + [C.unit(A, nx)], xr.same(code["Not"](ax, nx), x), meta=rp("involution", "Not")))
-    except Unsupported as ex_:
+    except ANALYSIS as ex_:
         run.add(undecided("hedge/laws/subset", f"outside the verified subset: {ex_}"))
     # registration (static on the source + bounded run-time confirmation): HedgeFactory registers h().name -> h and Hedge.name
     # is the lower-cased class name
